@@ -104,6 +104,10 @@ class Tr:
             return self.seq(parts)
         if isinstance(s, ast.Expr):
             v = s.value
+            if (isinstance(v, ast.Call) and isinstance(v.func, ast.Attribute) and v.func.attr == "set"
+                    and getattr(v.func.value, "id", None) == CTX and len(v.args) == 1):
+                pre = [".call"] if self.has_call(v.args[0]) else []
+                return self.seq(pre + [f"(.setv {self.loc(CTX)} 0)"])
             if (isinstance(v, ast.Call) and getattr(v.func, "id", None) == "reset_config_context"
                     and len(v.args) == 1 and isinstance(v.args[0], ast.Name) and v.args[0].id in self.slots):
                 return f"(.restore {self.loc(CTX)} {self.slots[v.args[0].id]})"
@@ -185,6 +189,16 @@ def reset_ok(tree) -> bool:
     if fn is None:
         return False
     body = [s for s in fn.body if not (isinstance(s, ast.Expr) and isinstance(s.value, ast.Constant))]
+    # ContextVar form: `_CONTEXT_CONFIG.set(copy(conf or CONFIG))`
+    if len(body) == 1 and isinstance(body[0], ast.Expr) and isinstance(body[0].value, ast.Call):
+        c = body[0].value
+        if (isinstance(c.func, ast.Attribute) and c.func.attr == "set" and getattr(c.func.value, "id", None) == CTX
+                and len(c.args) == 1 and isinstance(c.args[0], ast.Call)
+                and getattr(c.args[0].func, "id", None) == "copy" and len(c.args[0].args) == 1):
+            arg = c.args[0].args[0]
+            return (isinstance(arg, ast.BoolOp) and isinstance(arg.op, ast.Or)
+                    and getattr(arg.values[0], "id", None) == "conf")
+        return False
     if len(body) != 2 or not isinstance(body[0], ast.Global) or body[0].names != [CTX]:
         return False
     a = body[1]
@@ -193,6 +207,29 @@ def reset_ok(tree) -> bool:
         return False
     arg = a.value.args[0]
     return (isinstance(arg, ast.BoolOp) and isinstance(arg.op, ast.Or) and getattr(arg.values[0], "id", None) == "conf")
+
+
+def context_var_ok(tree) -> bool:
+    declared = False
+    for node in tree.body:
+        tgt = None
+        if isinstance(node, ast.AnnAssign) and getattr(node.target, "id", None) == CTX:
+            tgt = node.value
+        elif isinstance(node, ast.Assign) and getattr(node.targets[0], "id", None) == CTX:
+            tgt = node.value
+        if tgt is not None:
+            declared = isinstance(tgt, ast.Call) and getattr(tgt.func, "id", None) == "ContextVar"
+            if not declared:
+                return False
+    if not declared:
+        return False
+    # every other use is `_CONTEXT_CONFIG.get(...)` / `_CONTEXT_CONFIG.set(...)`; never rebound via `global`
+    for node in ast.walk(tree):
+        if isinstance(node, ast.Global) and CTX in node.names:
+            return False
+        if isinstance(node, ast.Attribute) and getattr(node.value, "id", None) == CTX and node.attr not in ("get", "set"):
+            return False
+    return True
 
 
 SPECS = [
@@ -217,6 +254,9 @@ def render(repo: Path) -> str:
              "namespace Pandera.Generated", "open Pandera.Eff", ""]
     cfg_tree = ast.parse((repo / "pandera/config.py").read_text())
     lines.append(f"def resetConfigContextOk : Bool := {'true' if reset_ok(cfg_tree) else 'false'}")
+    lines.append("/-- `_CONTEXT_CONFIG` is declared as a `ContextVar` (local to the thread / task) and is only ever")
+    lines.append("accessed through `.get()` / `.set()` -/")
+    lines.append(f"def contextConfigIsContextVar : Bool := {'true' if context_var_ok(cfg_tree) else 'false'}")
     lines.append("")
     for lean, file, path, roots in SPECS:
         tree = ast.parse((repo / file).read_text())
